@@ -81,12 +81,64 @@ type c16Case struct {
 	key   string
 	blk   *ssa.BasicBlock
 	line  string
+	vals  []string // renderings of the value side of the same line
 	where token.Pos
+}
+
+// c16KeyTerm: term is TrimSpace/ToLower (any nesting, any order) over the left side of LINE cut at
+// the first "=": returns LINE and the acceptable renderings of the right side.
+func c16KeyTerm(term string) (line string, vals []string, ok bool) {
+	lower := false
+	for {
+		switch {
+		case strings.HasPrefix(term, "strings.TrimSpace(") && strings.HasSuffix(term, ")"):
+			term = term[len("strings.TrimSpace(") : len(term)-1]
+			continue
+		case strings.HasPrefix(term, "strings.ToLower(") && strings.HasSuffix(term, ")"):
+			term = term[len("strings.ToLower(") : len(term)-1]
+			lower = true
+			continue
+		}
+		break
+	}
+	if !lower {
+		return "", nil, false
+	}
+	switch {
+	case strings.HasPrefix(term, "strings.Split(") && strings.HasSuffix(term, `, "=")[0]`):
+		line = term[len("strings.Split(") : len(term)-len(`, "=")[0]`)]
+	case strings.HasPrefix(term, "strings.SplitN(") && strings.HasSuffix(term, `, "=", 2)[0]`):
+		line = term[len("strings.SplitN(") : len(term)-len(`, "=", 2)[0]`)]
+	case strings.HasPrefix(term, "strings.Cut(") && strings.HasSuffix(term, `, "=")#0`):
+		line = term[len("strings.Cut(") : len(term)-len(`, "=")#0`)]
+	default:
+		return "", nil, false
+	}
+	vals = []string{`strings.Split(` + line + `, "=")[1]`, `strings.SplitN(` + line + `, "=", 2)[1]`, `strings.Cut(` + line + `, "=")#1`}
+	return line, vals, true
+}
+
+func containsAny(s string, subs []string) bool {
+	for _, x := range subs {
+		if strings.Contains(s, x) {
+			return true
+		}
+	}
+	return false
+}
+
+// wrapsAny: s == pre + v + suf for one of the value renderings v.
+func wrapsAny(s, pre string, vals []string, suf string) (string, bool) {
+	for _, v := range vals {
+		if s == pre+v+suf {
+			return v, true
+		}
+	}
+	return "", false
 }
 
 func c16Cases(fa *FuncAn) []c16Case {
 	var out []c16Case
-	const pre, suf = `strings.TrimSpace(strings.ToLower(strings.Split(`, `, "=")[0]))`
 	for _, cd := range fa.Conds {
 		if cd.Kind != "eq" {
 			continue
@@ -100,11 +152,11 @@ func c16Cases(fa *FuncAn) []c16Case {
 		default:
 			continue
 		}
-		if !strings.HasPrefix(term, pre) || !strings.HasSuffix(term, suf) {
+		line, vals, ok := c16KeyTerm(term)
+		if !ok {
 			continue
 		}
-		line := strings.TrimSuffix(strings.TrimPrefix(term, pre), suf)
-		out = append(out, c16Case{strings.Trim(k, `"`), cd.If.Block().Succs[cd.HoldsSucc], line, InstrPos(cd.If)})
+		out = append(out, c16Case{strings.Trim(k, `"`), cd.If.Block().Succs[cd.HoldsSucc], line, vals, InstrPos(cd.If)})
 	}
 	return out
 }
@@ -152,7 +204,7 @@ func runC16(w *World, c *Check) {
 				c.Note("C16.libdefaults", fk, "extra-key "+cs.key, where, "a key outside the reference table is handled (not judged)")
 				continue
 			}
-			val := `strings.Split(` + cs.line + `, "=")[1]`
+			vals := cs.vals
 			var stores []*ssa.Store
 			for _, b := range regionOf(cs.blk) {
 				for _, in := range b.Instrs {
@@ -191,17 +243,19 @@ func runC16(w *World, c *Check) {
 				detail = trunc(v, 160)
 				switch want.kind {
 				case "bool":
-					okVal = v == "config.parseBoolean("+val+")#0"
-					parserCall = "config.parseBoolean(" + val + ")"
+					if hit, ok := wrapsAny(v, "config.parseBoolean(", vals, ")#0"); ok {
+						okVal, parserCall = true, "config.parseBoolean("+hit+")"
+					}
 				case "dur":
-					okVal = v == "config.parseDuration("+val+")#0"
-					parserCall = "config.parseDuration(" + val + ")"
+					if hit, ok := wrapsAny(v, "config.parseDuration(", vals, ")#0"); ok {
+						okVal, parserCall = true, "config.parseDuration("+hit+")"
+					}
 				case "str":
-					okVal = v == "strings.TrimSpace("+val+")"
+					_, okVal = wrapsAny(v, "strings.TrimSpace(", vals, ")")
 				case "fields":
-					okVal = v == "strings.Fields("+val+")"
+					_, okVal = wrapsAny(v, "strings.Fields(", vals, ")")
 				default:
-					okVal = strings.Contains(v, val) || okVal
+					okVal = containsAny(v, vals) || okVal
 				}
 				if okVal {
 					break
@@ -213,7 +267,7 @@ func runC16(w *World, c *Check) {
 					for _, in := range b.Instrs {
 						if call, isCall := in.(*ssa.Call); isCall {
 							n := fa.CalleeName(call)
-							if (n == "strconv.ParseInt" || n == "strconv.Atoi" || n == "net.ParseIP") && strings.Contains(strings.Join(fa.CallArgs(call), ","), val) {
+							if (n == "strconv.ParseInt" || n == "strconv.Atoi" || n == "net.ParseIP") && containsAny(strings.Join(fa.CallArgs(call), ","), vals) {
 								okVal = true
 							}
 						}
@@ -241,7 +295,7 @@ func runC16(w *World, c *Check) {
 					if cd.L == "nil" {
 						other = cd.R
 					}
-					if !strings.Contains(other, val) && !strings.Contains(other, cs.line) {
+					if !containsAny(other, vals) && !strings.Contains(other, cs.line) {
 						continue
 					}
 					if parserCall != "" && other != parserCall+"#1" {
@@ -299,12 +353,15 @@ func runC16(w *World, c *Check) {
 				continue
 			}
 			seen[cs.key] = true
-			val := `strings.TrimSpace(strings.Split(` + cs.line + `, "=")[1])`
+			var tvals []string
+			for _, v := range cs.vals {
+				tvals = append(tvals, "strings.TrimSpace("+v+")")
+			}
 			if cs.key == "default_domain" {
 				ok := false
 				for _, b := range regionOf(cs.blk) {
 					for _, in := range b.Instrs {
-						if st, isSt := in.(*ssa.Store); isSt && fa.R.R(st.Addr) == "recv.DefaultDomain" && fa.R.R(st.Val) == val {
+						if st, isSt := in.(*ssa.Store); isSt && fa.R.R(st.Addr) == "recv.DefaultDomain" && contains(tvals, fa.R.R(st.Val)) {
 							ok = true
 						}
 					}
@@ -322,11 +379,11 @@ func runC16(w *World, c *Check) {
 					}
 					args := fa.CallArgs(call)
 					calls = append(calls, strings.Join(args, ", "))
-					if len(args) == 3 && args[0] == "recv."+field && strings.Contains(args[1], `strings.Split(`+cs.line+`, "=")[1]`) {
+					if len(args) == 3 && args[0] == "recv."+field && containsAny(args[1], cs.vals) {
 						okCall = true
 						flags[cs.key] = args[2]
 						if cs.key == "kdc" {
-							okPort := strings.Contains(args[1], `":88"`) && strings.Contains(args[1], `":88*"`) && strings.Contains(args[1], val)
+							okPort := strings.Contains(args[1], `":88"`) && strings.Contains(args[1], `":88*"`) && containsAny(args[1], tvals)
 							c.Decide(okPort, "C16.realmkeys", fk, "kdc:port-default", where, "a kdc value without a port gets :88 (before a final-value marker), one with a port is kept", "value appended: "+trunc(args[1], 200))
 						}
 					}
